@@ -503,6 +503,7 @@ type SpecFunc struct {
 
 type Axiom struct {
 	Name string
+	Pkg  string
 	Expr *SExpr
 	File string
 	Line int
@@ -858,7 +859,7 @@ func (ss *SpecSet) parseContractText(file, pkg string, lines []string, lineNos [
 			if err != nil {
 				return fail(it, err.Error())
 			}
-			ss.Axioms = append(ss.Axioms, &Axiom{Name: strings.TrimSpace(rest[:i]), Expr: e, File: file, Line: it.line})
+			ss.Axioms = append(ss.Axioms, &Axiom{Name: strings.TrimSpace(rest[:i]), Pkg: pkg, Expr: e, File: file, Line: it.line})
 		default:
 			return fail(it, "unknown keyword "+kw)
 		}
